@@ -3,7 +3,7 @@
     state + result; a Rust `?` is [bind]; the mutable state survives an error (needed for the
     "try, and restore the cursor on failure" sites, which keep log entries and consumed ids). *)
 From Coq Require Import Ascii String List Bool NArith ZArith.
-From A2L Require Import Text.Escape Text.IntText Lex.Tokenizer Gram.Spec.
+From A2L Require Import Text.Escape Text.IntText Lex.Tokenizer Gram.Spec A2ml.Types.
 Import ListNotations.
 Local Open Scope N_scope.
 
@@ -31,7 +31,10 @@ Record pstate := mkPS {
   ps_nfiles : nat;             (* filenames.len() *)
   ps_ftab : list fentry;
   ps_pos : nat;                (* token_cursor.pos = length ps_before *)
-  ps_kept : option nat         (* kept_comment_pos *)
+  ps_kept : option nat;        (* kept_comment_pos *)
+  ps_specs : list a2mlty;      (* a2mlspec: the built-in specification, then the one of the A2ML block *)
+  ps_a2ml : list (bytes * (option a2mlty * bytes))
+                               (* oracle for a2ml::parse_a2ml: text of an A2ML block -> type specification | error message *)
 }.
 
 Inductive R (A : Type) := ROk (a : A) | RErr (d : diag) | RPanic (site : string) | RFuel.
@@ -65,20 +68,28 @@ Definition try {A} (m : M A) : M (option A * option diag) :=
 
 (* ---------- state updates ---------- *)
 Definition upd_cursor (s : pstate) (b a : list token) (pos : nat) : pstate :=
-  mkPS b a (ps_first_line s) (ps_last s) (ps_seq s) (ps_log s) (ps_strict s) (ps_ver s) (ps_nfiles s) (ps_ftab s) pos (ps_kept s).
+  mkPS b a (ps_first_line s) (ps_last s) (ps_seq s) (ps_log s) (ps_strict s) (ps_ver s) (ps_nfiles s) (ps_ftab s) pos (ps_kept s) (ps_specs s) (ps_a2ml s).
 Definition upd_kept (s : pstate) (k : option nat) : pstate :=
-  mkPS (ps_before s) (ps_after s) (ps_first_line s) (ps_last s) (ps_seq s) (ps_log s) (ps_strict s) (ps_ver s) (ps_nfiles s) (ps_ftab s) (ps_pos s) k.
+  mkPS (ps_before s) (ps_after s) (ps_first_line s) (ps_last s) (ps_seq s) (ps_log s) (ps_strict s) (ps_ver s) (ps_nfiles s) (ps_ftab s) (ps_pos s) k (ps_specs s) (ps_a2ml s).
 Definition upd_last (s : pstate) (l : N) : pstate :=
-  mkPS (ps_before s) (ps_after s) (ps_first_line s) l (ps_seq s) (ps_log s) (ps_strict s) (ps_ver s) (ps_nfiles s) (ps_ftab s) (ps_pos s) (ps_kept s).
+  mkPS (ps_before s) (ps_after s) (ps_first_line s) l (ps_seq s) (ps_log s) (ps_strict s) (ps_ver s) (ps_nfiles s) (ps_ftab s) (ps_pos s) (ps_kept s) (ps_specs s) (ps_a2ml s).
 Definition upd_seq (s : pstate) (n : N) : pstate :=
-  mkPS (ps_before s) (ps_after s) (ps_first_line s) (ps_last s) n (ps_log s) (ps_strict s) (ps_ver s) (ps_nfiles s) (ps_ftab s) (ps_pos s) (ps_kept s).
+  mkPS (ps_before s) (ps_after s) (ps_first_line s) (ps_last s) n (ps_log s) (ps_strict s) (ps_ver s) (ps_nfiles s) (ps_ftab s) (ps_pos s) (ps_kept s) (ps_specs s) (ps_a2ml s).
 Definition upd_log (s : pstate) (l : list diag) : pstate :=
-  mkPS (ps_before s) (ps_after s) (ps_first_line s) (ps_last s) (ps_seq s) l (ps_strict s) (ps_ver s) (ps_nfiles s) (ps_ftab s) (ps_pos s) (ps_kept s).
+  mkPS (ps_before s) (ps_after s) (ps_first_line s) (ps_last s) (ps_seq s) l (ps_strict s) (ps_ver s) (ps_nfiles s) (ps_ftab s) (ps_pos s) (ps_kept s) (ps_specs s) (ps_a2ml s).
 Definition upd_ver (s : pstate) (v : version) : pstate :=
-  mkPS (ps_before s) (ps_after s) (ps_first_line s) (ps_last s) (ps_seq s) (ps_log s) (ps_strict s) v (ps_nfiles s) (ps_ftab s) (ps_pos s) (ps_kept s).
+  mkPS (ps_before s) (ps_after s) (ps_first_line s) (ps_last s) (ps_seq s) (ps_log s) (ps_strict s) v (ps_nfiles s) (ps_ftab s) (ps_pos s) (ps_kept s) (ps_specs s) (ps_a2ml s).
 
 Definition init_state (toks : list token) (strict : bool) (nfiles : nat) (ftab : list fentry) : pstate :=
-  mkPS [] toks (match toks with t :: _ => Some (tk_line t) | [] => None end) 0 0 [] strict V171 nfiles ftab O None.
+  mkPS [] toks (match toks with t :: _ => Some (tk_line t) | [] => None end) 0 0 [] strict V171 nfiles ftab O None [] [].
+Definition init_state_a2ml (toks : list token) (strict : bool) (nfiles : nat) (ftab : list fentry)
+           (specs : list a2mlty) (oracle : list (bytes * (option a2mlty * bytes))) : pstate :=
+  mkPS [] toks (match toks with t :: _ => Some (tk_line t) | [] => None end) 0 0 [] strict V171 nfiles ftab O None specs oracle.
+Definition upd_specs (s : pstate) (l : list a2mlty) : pstate :=
+  mkPS (ps_before s) (ps_after s) (ps_first_line s) (ps_last s) (ps_seq s) (ps_log s) (ps_strict s) (ps_ver s) (ps_nfiles s)
+       (ps_ftab s) (ps_pos s) (ps_kept s) l (ps_a2ml s).
+Definition get_specs : M (list a2mlty) := fun s => (ROk (ps_specs s), s).
+Definition push_spec (t : a2mlty) : M unit := fun s => (ROk tt, upd_specs s (ps_specs s ++ [t])).
 
 (* ---------- errors ---------- *)
 (* every constructor reads filenames[context.fileid] (index panic if out of range) and last_token_position *)
